@@ -4,7 +4,8 @@ import shutil
 import tempfile
 
 FILES = ["a.py", "b.py", "c.py"]
-TEXTS = ["x = 1\n", "y = 'é$'\n", "z = 3\r\nw = 4\r\n"]
+# texts as rope's own refactorings produce them: "\n" newlines only (the on-disk convention is the file's)
+TEXTS = ["x = 1\n", "y = 'é$'\n", "z = 3\nw = 4\n"]
 
 
 def snapshot(root):
@@ -19,40 +20,64 @@ def snapshot(root):
     return out
 
 
-def scenario(ops):
+def _run_ops(tmp, ops):
+    """perform the operations in a fresh project on directory tmp; returns the (open) project"""
     from rope.base import project as rproject, change, exceptions
+
+    with open(os.path.join(tmp, "a.py"), "wb") as fh:
+        fh.write(b"a = 0\r\nb = 1\r\n")  # CRLF on disk: the convention has to survive undo after reopen
+    proj = rproject.Project(tmp, save_history=True, save_objectdb=True, automatic_soa=False)
+    for i, (kind, f, c) in enumerate(ops):
+        path = FILES[f]
+        try:
+            if kind == 0:
+                cs = change.ChangeSet("edit %d" % i)
+                cs.add_change(change.ChangeContents(proj.get_file(path), TEXTS[c]))
+                proj.do(cs)
+            elif kind == 1:
+                proj.do(change.CreateResource(proj.get_file(path)))
+            elif kind == 2:
+                cs = change.ChangeSet("move %d" % i)
+                cs.add_change(change.MoveResource(proj.get_file(path), FILES[(f + 1) % 3], exact=True))
+                proj.do(cs)
+            elif kind == 3:
+                proj.history.undo()
+            elif kind == 4:
+                proj.history.redo()
+            else:
+                cs = change.ChangeSet("two %d" % i)
+                cs.add_change(change.ChangeContents(proj.get_file(path), TEXTS[c]))
+                cs.add_change(change.ChangeContents(proj.get_file(path), TEXTS[(c + 1) % 3]))
+                proj.do(cs)
+        except (exceptions.RopeError, OSError):
+            continue
+    return proj
+
+
+def _undo_outcome(proj, tmp):
+    try:
+        proj.history.undo()
+        return snapshot(tmp)
+    except Exception as e:
+        return "raised %s" % type(e).__name__
+
+
+def _redo_outcome(proj, tmp):
+    try:
+        proj.history.redo()
+        return snapshot(tmp)
+    except Exception as e:
+        return "raised %s" % type(e).__name__
+
+
+def scenario(ops):
+    from rope.base import project as rproject, change
 
     problems = []
     tmp = tempfile.mkdtemp(prefix="c12reopen")
+    twin = tempfile.mkdtemp(prefix="c12twin")
     try:
-        with open(os.path.join(tmp, "a.py"), "w") as fh:
-            fh.write("a = 0\n")
-        proj = rproject.Project(tmp, save_history=True, save_objectdb=True, automatic_soa=False)
-        states = [snapshot(tmp)]
-        for i, (kind, f, c) in enumerate(ops):
-            path = FILES[f]
-            try:
-                if kind == 0:
-                    cs = change.ChangeSet("edit %d" % i)
-                    cs.add_change(change.ChangeContents(proj.get_file(path), TEXTS[c]))
-                    proj.do(cs)
-                elif kind == 1:
-                    proj.do(change.CreateResource(proj.get_file(path)))
-                elif kind == 2:
-                    cs = change.ChangeSet("move %d" % i)
-                    cs.add_change(change.MoveResource(proj.get_file(path), FILES[(f + 1) % 3], exact=True))
-                    proj.do(cs)
-                elif kind == 3:
-                    proj.history.undo()
-                elif kind == 4:
-                    proj.history.redo()
-                else:
-                    cs = change.ChangeSet("two %d" % i)
-                    cs.add_change(change.ChangeContents(proj.get_file(path), TEXTS[c]))
-                    cs.add_change(change.ChangeContents(proj.get_file(path), TEXTS[(c + 1) % 3]))
-                    proj.do(cs)
-            except (exceptions.RopeError, OSError):
-                continue
+        proj = _run_ops(tmp, ops)
         to_data = change.ChangeToData()
         undo_before = [to_data(c) for c in proj.history.undo_list]
         redo_before = [to_data(c) for c in proj.history.redo_list]
@@ -67,24 +92,27 @@ def scenario(ops):
             problems.append("redo list differs after reopen: %r -> %r" % (redo_before, redo_after))
         if [str(c) for c in proj2.history.undo_list] != desc_before:
             problems.append("descriptions differ after reopen")
-        # undo from the reloaded list restores the same tree as undo in a project that was never closed
-        if undo_before and not problems:
-            twin = tempfile.mkdtemp(prefix="c12twin")
+        # undo (then redo) from the reloaded lists must leave the same bytes as in a project that performed
+        # the same operations and was never closed
+        if not problems:
+            projb = _run_ops(twin, ops)
             try:
-                shutil.rmtree(twin)
-                shutil.copytree(tmp, twin, ignore=shutil.ignore_patterns(".ropeproject"))
-                try:
-                    proj2.history.undo()
-                    reopened = snapshot(tmp)
-                except Exception as e:
-                    reopened = "raised %s" % type(e).__name__
-                # reference: the never-closed project cannot be reused (closed); compare with the contents recorded in the change
-                last = undo_before[-1]
+                if undo_before:
+                    a, b = _undo_outcome(proj2, tmp), _undo_outcome(projb, twin)
+                    if a != b:
+                        problems.append("undo after reopen gives %r, undo in the session that made the change gives %r" % (a, b))
+                    elif not isinstance(a, str):
+                        a, b = _redo_outcome(proj2, tmp), _redo_outcome(projb, twin)
+                        if a != b:
+                            problems.append("redo after reopen + undo gives %r, in the original session %r" % (a, b))
+                elif redo_before:
+                    a, b = _redo_outcome(proj2, tmp), _redo_outcome(projb, twin)
+                    if a != b:
+                        problems.append("redo after reopen gives %r, redo in the session that undid the change gives %r" % (a, b))
             finally:
-                shutil.rmtree(twin, ignore_errors=True)
-            if isinstance(reopened, str) and "NotImplementedError" not in reopened:
-                problems.append("undo from the reloaded history %s" % reopened)
+                projb.close()
         proj2.close()
         return problems
     finally:
         shutil.rmtree(tmp, ignore_errors=True)
+        shutil.rmtree(twin, ignore_errors=True)
